@@ -44,6 +44,9 @@ var debugOps = os.Getenv("VERIF_C06_DEBUG") != ""
 // development aid: VERIF_C06_NOTOUCH=1 switches the 'touchy' member off (to show that a mutant needs it)
 var noTouch = os.Getenv("VERIF_C06_NOTOUCH") != ""
 
+// development aid: VERIF_C06_NOTYPES=1 switches the 'typed' member off (to show that a mutant needs it)
+var noTypes = os.Getenv("VERIF_C06_NOTYPES") != ""
+
 func init() {
 	logx.Disable()
 	// stat.Report (called by the redis breaker when it drops a request and by the cleaner when it
@@ -150,6 +153,7 @@ type entity struct {
 	ver        int   // version the database holds now; 0 = no such row
 	hist       []int // every state the database has held for this row, oldest first
 
+	loadDt    destType      // the destination type through which the primary entry was written last (probes only)
 	idxLoaded bool          // an index read loaded the row since the last invalidation (primary entry may carry the safety gap)
 	customTTL time.Duration // longest explicit expiry set on the primary key since the last invalidation
 
@@ -239,9 +243,12 @@ type call struct {
 	got        row
 	out        outcome
 	own        []*qexec
-	dbx        *qexec  // out == oDBErr: the query whose error the call returned
-	withExp    bool    // rTake through Cache.TakeWithExpire
-	cx         ctxPlan // the request context of the call
+	dbx        *qexec   // out == oDBErr: the query whose error the call returned
+	withExp    bool     // rTake through Cache.TakeWithExpire
+	dest       any      // the destination object of the call
+	dt         destType // the Go type of the destination object handed to the read (member 'typed', dest_test.go)
+	shape      string   // what the destination holds is not a row at all (why)
+	cx         ctxPlan  // the request context of the call
 
 	// what the caller does with its destination object (member 'touchy', touch_test.go); all zero: a
 	// fresh zero object for every read, left alone once the read returned
@@ -404,6 +411,7 @@ type world struct {
 	idents  bool // error identities are drawn (wrapped not-found, sentinel / look-alike database errors)
 	monc    bool // the cache-aside API under test is monc.Model (Mongo cached model) instead of sqlc.CachedConn
 	touchy  bool // readers write to, re-use and pre-fill their destination objects (touch_test.go)
+	typed   bool // readers hand in destination objects of different Go types (dest_test.go)
 	audit   bool // the closing audit is running: plain reads
 	objs    []*tracked
 	mm      *monc.Model
@@ -512,12 +520,12 @@ func (w *world) query(ctx context.Context, st *step, c *call, kind int, v any) (
 		x.err = w.errNF
 		return nil, w.notFoundFromDB(ent)
 	}
-	rp, ok := v.(*row)
-	if !ok {
-		w.fail("closure-destination", "query closure of key %s received a %T instead of the caller's destination", key, v)
+	// the closure is handed the destination of the call it runs for (monc: the stub collection's own
+	// document, which the driver then decodes into the destination)
+	if (!w.monc && c.dest != nil && v != c.dest) || !fillDest(v, w.curRow(ent)) {
+		w.fail("closure-destination", "query closure of key %s received a %T instead of the caller's destination (%T)", key, v, c.dest)
 		return nil, errors.New("bad destination")
 	}
-	*rp = w.curRow(ent)
 	x.ver = ent.ver
 	if kind == qIndex {
 		ent.idxLoaded = true
@@ -527,8 +535,9 @@ func (w *world) query(ctx context.Context, st *step, c *call, kind int, v any) (
 
 // doRead: one read call with the destination v.  What the caller received is recorded (a deep
 // copy) the moment the call returns.
-func (w *world) doRead(st *step, c *call, v *row) {
+func (w *world) doRead(st *step, c *call, v any) {
 	ent := st.ent
+	c.dest = v
 	ctx := c.cx.open(w)
 	if w.monc {
 		c.err = w.monRead(ctx, st, c, v)
@@ -633,8 +642,8 @@ func (w *world) doRead(st *step, c *call, v *row) {
 	c.cx.close()
 }
 
-func (w *world) classify(ent *entity, c *call, v *row) {
-	c.got = cloneRow(*v)
+func (w *world) classify(ent *entity, c *call, v any) {
+	c.got, c.shape = projectDest(v)
 	switch {
 	case c.err == nil:
 		c.out = oRow
@@ -1069,6 +1078,10 @@ func newWorld(r *simrt.Run, tier string) *world {
 	if w.touchy {
 		r.Probe("touchy-member")
 	}
+	w.typed = t.Intn(5) >= 3 && !noTypes
+	if w.typed {
+		r.Probe("typed-member")
+	}
 	w.variant = t.Intn(4)
 	w.cluster = w.variant == 3
 	ne := len(expiries)
@@ -1093,6 +1106,18 @@ func newWorld(r *simrt.Run, tier string) *world {
 		if w.nfe > 100*day {
 			r.Probe("not-found-expiry-above-100-days")
 		}
+	}
+	// unusual but legal expiries: below a second, exactly a second, not a whole number of seconds
+	// (the statement: the TTL is the expiry, +/-5 %, rounded UP to seconds).  Drawn for the expiry and
+	// the not-found expiry independently; draw 0 keeps what was drawn above
+	var oddE, oddNF time.Duration
+	if k := t.Intn(3 * len(oddExpiries)); k > 0 && k <= len(oddExpiries) {
+		oddE = oddExpiries[k-1]
+		w.e = oddE
+	}
+	if k := t.Intn(3 * len(oddExpiries)); k > 0 && k <= len(oddExpiries) {
+		oddNF = oddExpiries[k-1]
+		w.nfe = oddNF
 	}
 	var opts []cache.Option
 	switch []int{0, 0, 0, 0, 0, 0, 1, 1, 1, 2, 2, 2, 2, 4, 5, 6}[t.Intn(16)] {
@@ -1128,6 +1153,15 @@ func newWorld(r *simrt.Run, tier string) *world {
 	}
 	if w.e == defaultExpiry {
 		r.Probe("default-expiry")
+	}
+	// (counted where the option really carries the value: some option sets above leave one out)
+	if oddE != 0 && w.e == oddE {
+		r.Probe("expiry-odd")
+		r.Probe("expiry-odd-" + oddClass(oddE))
+	}
+	if oddNF != 0 && w.nfe == oddNF {
+		r.Probe("not-found-expiry-odd")
+		r.Probe("not-found-expiry-odd-" + oddClass(oddNF))
 	}
 	newStat := func(name string) *cache.Stat {
 		if t.Bool() {
@@ -1363,6 +1397,9 @@ func (w *world) genStep(ent *entity, allowWrite bool) *step {
 			if st.expire > time.Hour {
 				w.r.Probe("explicit-expiry-long")
 			}
+			if st.expire < time.Second {
+				w.r.Probe("explicit-expiry-below-1s")
+			}
 		}
 		if ent.ver == 0 {
 			st.kind = kWrite // nothing to put into the cache: insert the row instead
@@ -1419,6 +1456,9 @@ func (w *world) genStep(ent *entity, allowWrite bool) *step {
 				continue // monc.Model.GetCache takes no context
 			}
 			c.cx = w.drawCtx(c.kind != rGet, st.qLat)
+		}
+		for _, c := range st.readers {
+			w.drawDest(c)
 		}
 		if t.Chance(1, 5) {
 			st.errLeft[qPrimary] = t.Range(1, 2)
@@ -1526,6 +1566,9 @@ func (st *step) String() string {
 			}
 			if c.cx.mode != cNone {
 				s += "(" + c.cx.String() + ")"
+			}
+			if c.dt != dRow {
+				s += "->" + destNames[c.dt]
 			}
 			s += c.touchSuffix()
 		}
@@ -1918,7 +1961,7 @@ func body(r *simrt.Run, tier string) {
 		}
 	}
 	r.Sample(map[string]any{"construction": construction, "options": w.optDesc, "nodes_and_keys": w.placementDesc(),
-		"fault_injecting": w.faulty, "contexts_may_end": w.ctxy, "callers_touch_their_destination_objects": w.touchy, "expiry": w.e.String(), "not_found_expiry": w.nfe.String(), "rows_version_history": strings.TrimSpace(ents),
+		"fault_injecting": w.faulty, "contexts_may_end": w.ctxy, "callers_touch_their_destination_objects": w.touchy, "destination_types_differ": w.typed, "expiry": w.e.String(), "not_found_expiry": w.nfe.String(), "rows_version_history": strings.TrimSpace(ents),
 		"history": w.ops, "store_faults_fired": fired})
 }
 
